@@ -215,11 +215,29 @@ def stepOf (j : J) : Option Impl.Step :=
   | .arr [.str "withRequiredClaim", .str a] => some (.withRequiredClaim a)
   | _ => none
 
+def optListOf' (j : J) (k : String) : Option (List String) :=
+  match jget j k with
+  | some (.arr xs) => some (strs xs)
+  | _ => none
+
+/-- the starting policy: the crate's `default()` / `new(alg)` as modelled, or — when the request carries
+`init`, the fields read off the real starting policy — those fields (C11 fixes what the steps do and what
+is enforced, not the starting values); `new(alg)` still decides the algorithm itself -/
 def policyOf (req : J) : Impl.Validation :=
-  let start := match jstr? req "start" with
+  let start0 := match jstr? req "start" with
     | some "default" => Impl.Validation.default
     | some a => Impl.Validation.new (algOfName a)
     | none => Impl.Validation.default
+  let start : Impl.Validation := match jget req "init" with
+    | some (.obj ms) =>
+      let i : J := .obj ms
+      { required := optListOf' i "required", leeway := jnat i "leeway", validateExp := jbool i "validate_exp",
+        validateNbf := jbool i "validate_nbf", validateAud := jbool i "validate_aud", aud := optListOf' i "aud",
+        iss := jstr? i "iss", sub := jstr? i "sub",
+        alg := match jstr? req "start" with
+          | some "default" => algOfName (jstr i "alg")
+          | _ => start0.alg }
+    | _ => start0
   let v := start.steps ((jarr req "steps").filterMap stepOf)
   -- direct field assignments the harness may make on the public fields
   let v := match jget req "validate_nbf" with
